@@ -70,6 +70,8 @@ PAINTS = ["S", "s", "f", "f*", "B", "B*", "b", "b*"]
 
 
 class Gen:
+    wide: frozenset = frozenset()      # colour spaces whose components range beyond 0..1 (Lab, ICCBased with /Range)
+
     def __init__(self, rng: random.Random, csnames: Dict[str, int]) -> None:
         self.rng = rng
         self.csnames = csnames
@@ -101,12 +103,12 @@ class Gen:
             name = rng.choice(sorted(self.csnames))
             self.ops.append(Op("cs", [Name(name)]))
             self.fill_n = self.csnames[name]
-            self.ops.append(Op(rng.choice(["sc", "scn"]), comps(self.fill_n)))
+            self.ops.append(Op(rng.choice(["sc", "scn"]), [dy(rng, -100, 100, 4) for _ in range(self.fill_n)] if name in self.wide else comps(self.fill_n)))
         elif r < 0.88:
             name = rng.choice(sorted(self.csnames))
             self.ops.append(Op("CS", [Name(name)]))
             self.stroke_n = self.csnames[name]
-            self.ops.append(Op(rng.choice(["SC", "SCN"]), comps(self.stroke_n)))
+            self.ops.append(Op(rng.choice(["SC", "SCN"]), [dy(rng, -100, 100, 4) for _ in range(self.stroke_n)] if name in self.wide else comps(self.stroke_n)))
         elif r < 0.94:
             self.ops.append(Op(rng.choice(["sc", "scn"]), comps(self.fill_n)))
         else:
@@ -229,6 +231,7 @@ def gen_case(seed_str: str, tier: str) -> Dict[str, Any]:
     # resource-defined colour spaces with 1, 3 or 4 components
     csres: Dict[str, Any] = {}
     csn: Dict[str, int] = {"DeviceGray": 1, "DeviceRGB": 3, "DeviceCMYK": 4}
+    wide: set = set()
     for i in range(rng.choice([1, 2, 3])):
         ncomp = rng.choice([1, 3, 4])
         name = "Cs%d" % i
@@ -237,6 +240,10 @@ def gen_case(seed_str: str, tier: str) -> Dict[str, Any]:
             # a parameterless family spelled as a one-element array (8.6.3: "a name or an array whose first element is the family")
             fam = {1: "DeviceGray", 3: "DeviceRGB", 4: "DeviceCMYK"}[ncomp]
             csres[name] = [N(fam)] if rng.random() < 0.7 else doc.add([N(fam)])
+        elif r < 0.4 and ncomp == 3:
+            # CIE L*a*b*: components range over 0..100 and -100..100 (8.6.5.4), far outside the device range
+            csres[name] = [N("Lab"), {"WhitePoint": [0.9505, 1, 1.089], "Range": [-100, 100, -100, 100]}]
+            wide.add(name)
         elif r < 0.7:
             icc = doc.add(Stream({"N": ncomp}, b"\x00" * 16))
             csres[name] = [N("ICCBased"), icc] if rng.random() < 0.7 else doc.add([N("ICCBased"), icc])
@@ -247,6 +254,7 @@ def gen_case(seed_str: str, tier: str) -> Dict[str, Any]:
             csres[name] = [N("DeviceN"), names, alt, fn]
         csn[name] = ncomp
     g = Gen(rng, csn)
+    g.wide = frozenset(wide)
     ops = g.build(rng.randint(5, 16) if tier == "quick" else rng.randint(5, 30))
     content = b" ".join(emit_tokens(ops))
     with_text = rng.random() < 0.25     # a glyph on the page: layout analysis then runs its full course around the shapes
